@@ -650,6 +650,10 @@ class Evaluator:
             return [StrV(c) for c in v.s]
         if isinstance(v, OpaqueV) and v.what == "iter":
             return list(v.payload)
+        if isinstance(v, self.ext.NdArr):
+            if v.ndim == 1:
+                return list(v.items)
+            return [self.ext.nd_getitem(self, v, Num(i), fr, node) for i in range(v.shape[0])]
         if isinstance(v, Num) and v.shape is not None and len(v.shape) >= 1:
             n = v.shape[0]
             if n.is_number:
@@ -1233,6 +1237,9 @@ class Evaluator:
             return self.ext.call_method(self, fn.recv, fn.name, args, kwargs, fr, node)
         if isinstance(fn, PyFuncV):
             return fn.fn(self, args, kwargs, fr, node)
+        if isinstance(fn, self.ext.PolyV):
+            x = args[0]
+            return Num(fn.expr(x.expr), kind="number", shape=getattr(x, "shape", None), isfloat=True)
         if isinstance(fn, OpaqueV):
             if fn.what == "delayed":
                 res = self.apply(fn.payload["func"], args, kwargs, fr, node)
@@ -1253,6 +1260,17 @@ class Evaluator:
         init = ci.init()
         if init is not None:
             self.call(init, args, kwargs, self_val=obj, depth=fr.depth + 1)
+        elif any(norm(d).split("(")[0].endswith("dataclass") for d in ci.node.decorator_list):
+            fields = [s_.target.id for s_ in ci.node.body if isinstance(s_, ast.AnnAssign) and isinstance(s_.target, ast.Name)]
+            for name, v in zip(fields, args):
+                obj.attrs[name] = v
+            for k, v in kwargs.items():
+                if k not in fields:
+                    raise Raised("TypeError", node, f"unexpected field {k}")
+                obj.attrs[k] = v
+            missing = [f_ for f_ in fields if f_ not in obj.attrs]
+            if missing:
+                raise Raised("TypeError", node, f"missing fields {missing}")
         return obj
 
 
